@@ -303,6 +303,7 @@ impl Gen {
                 self.steps.push(Step::Remove { slot, kind });
                 self.struct_op(slot);
             }
+            5 if self.r.chance(20) => self.steps.push(Step::MarkerReinsert { slot }),
             5 => {
                 if self.r.chance(50) {
                     self.steps.push(Step::MarkerOff { slot });
@@ -375,7 +376,14 @@ impl Gen {
         }
         // join (b gets its first relationship; both ends are already part of a graph)
         let (x, y) = if self.r.chance(50) { (b, c) } else { (d, a) };
-        self.steps.push(Step::Point { slot: x, kind: Kind::Link, target: y });
+        if self.r.chance(70) {
+            self.steps.push(Step::Point { slot: x, kind: Kind::Link, target: y });
+        }
+        if self.r.chance(40) {
+            // the marker re-inserted on a member (source or target of an edge) must leave the groups intact
+            let m = self.r.pick(&[a, b, c, d]);
+            self.steps.push(Step::MarkerReinsert { slot: m });
+        }
         if self.r.chance(30) {
             self.steps.push(Step::ServerFrame { tick: false, dt_ms: 16 });
         }
